@@ -5,7 +5,7 @@ from typing import Any, Dict
 
 from .. import gen, hta
 from ..core import Prop
-from .c04 import breakdown_cfg
+from .c04 import breakdown_cfg, maybe_fractional
 from .common import file_entries, case_from_cfg, draw_prefix, frame_rows, write_and_load
 
 
@@ -30,6 +30,7 @@ class C07(Prop):
                 cfg.streams = (7, 9)
             case = case_from_cfg(rng, cfg)
             if all(any(e.get("name") in gen.K_COMM for e in r["events"]) for r in case["ranks"]):
+                maybe_fractional(rng, case, k)
                 case["prefix"] = draw_prefix(rng)
                 return case
         raise RuntimeError("could not generate communication kernels on every rank")
@@ -38,7 +39,7 @@ class C07(Prop):
         with hta.CaseDir("c07") as d:
             ta = write_and_load(case, d)
             ranks = sorted(ta.t.traces)
-            rows = {r: frame_rows(ta, r) for r in ranks}
+            rows = {r: frame_rows(ta, r, u=int(case.get("u", 1))) for r in ranks}
             if any(not any(x["name"] in gen.K_COMM and x["stream"] != -1 for x in rows[r]) for r in ranks):
                 return {"skip": True}
             obs = {"prop": "C07", "err": "", "ranks": []}
